@@ -437,6 +437,8 @@ class RealFloat(numbers.Rational):
         return int(self.round(min_n=-1, rm=RoundingMode.RTP))
 
     def __round__(self, ndigits=None) -> int:
+        if ndigits is not None:
+            raise NotImplementedError('rounding to decimal digits cannot be implemented exactly')
         return int(self.round(min_n=-1, rm=RoundingMode.RNE))
 
     def __floordiv__(self, other):
